@@ -60,6 +60,14 @@ def main(props):
                 ],
                 "demo_output_with_change": out_mut[-600:],
             })
+            # keep triage fields recorded earlier (retired seeds stay retired)
+            try:
+                old = json.load(open(f"{dst}/meta.json"))
+                for k in ("status", "retired_reason", "caught_by"):
+                    if k in old and k not in meta:
+                        meta[k] = old[k]
+            except Exception:
+                pass
             json.dump(meta, open(f"{dst}/meta.json", "w"), indent=1)
 
 
